@@ -1,5 +1,6 @@
 //! iwe-verif: correspondence check (Lean model vs real code) and property oracles.
 //! Usage: iwe-verif <PROPERTY> --tier quick|thorough --seed N --model <driver> --out <json>
+mod act;
 mod dump;
 mod gen;
 mod hist;
@@ -74,6 +75,8 @@ fn main() {
         "C05" => props::c05::run(&ctx, &mut model, &mut rep),
         "C06" => props::c06::run(&ctx, &mut model, &mut rep),
         "C07" => props::c07::run(&ctx, &mut model, &mut rep),
+        "C09" => props::c09::run(&ctx, &mut model, &mut rep),
+        "C10" => props::c10::run(&ctx, &mut model, &mut rep),
         "C15" => props::c15::run(&ctx, &mut model, &mut rep),
         "C17" => props::c17::run(&ctx, &mut model, &mut rep),
         "C18" => props::c18::run(&ctx, &mut model, &mut rep),
